@@ -356,10 +356,20 @@ def h_layout(bs: int, tb: int, ns: int, nsh: int, uebsize: int, segnum: int) -> 
             return defer.succeed(False)
     saved = (layout.WriteBucketProxy, layout.WriteBucketProxy_v2)
     layout.WriteBucketProxy, layout.WriteBucketProxy_v2 = _W, _W2
+    eff0 = 1
+    while eff0 < ns:
+        eff0 = eff0 * 2
+    v2_end = 0x44 + data_size + 3 * (2 * eff0 - 1) * HS + nsh * (2 + HS)
+    fits_v2 = bs < 2 ** 64 and data_size < 2 ** 64 and v2_end < 2 ** 64
     try:
         wbp = layout.make_write_bucket_proxy(None, None, data_size, bs, ns, nsh, uebsize)
+    except layout.FileTooLargeError:
+        # a loud refusal is right exactly when some offset cannot be stored in the 64-bit fields of layout v2
+        return True if not fits_v2 else "share that fits layout v2 was refused as too large"
     finally:
         layout.WriteBucketProxy, layout.WriteBucketProxy_v2 = saved
+    if not fits_v2:
+        return "share whose offsets exceed 64 bits was not refused"
     o = wbp._offsets
     v2 = isinstance(wbp, _W2)
     hdr = 0x44 if v2 else 0x24
